@@ -423,6 +423,15 @@ def install(rf, ctrl, hook_models=True):
         ctrl.stop()
 
 
+def stragglers(before, wait=10.0):
+    """executor worker threads started since `before` (a set of threads) that are still alive now; they are joined (up to `wait`
+    seconds each) before returning, so that the caller can go on to close the datasets they may be using"""
+    late = [t for t in threading.enumerate() if t not in before and t.is_alive() and t.name.startswith('ThreadPoolExecutor')]
+    for t in late:
+        t.join(wait)
+    return late
+
+
 def run_with_watchdog(fn, timeout=30):
     """run fn() in a thread; returns (finished, result or exception)"""
     box = {}
